@@ -155,7 +155,8 @@ def run(ctx):
         z = [a for a in coverage_zero_actions(r["out"]) if a not in ("Init",)]
         if z:
             raise Infra("vacuous: actions never taken in the exhaustive model: %s" % z)
-        put(ctx, "impl_fair.cfg", cfg_text(SMALL, fair=True))
+        # liveness needs a caller that can make progress: zero-length buffers are left out (a caller may pass them for ever)
+        put(ctx, "impl_fair.cfg", cfg_text(dict(SMALL, Reqs="{1, 2, 3, 5}"), fair=True))
         r = ctx.tlc("PadStreamImpl", "impl_fair.cfg", workers=8, timeout=1700)
         ctx.log("liveness (Finishes under WF): ok, %d distinct" % r["distinct"])
 
